@@ -93,6 +93,11 @@ pub fn categories(dict: &Dictionary) -> Vec<String> {
     dict.char_prop().verif_category_names().to_vec()
 }
 
+/// Number of unk.def entries of each category, indexed by category id.
+pub fn unk_entries_per_category(dict: &Dictionary) -> Vec<usize> {
+    dict.unk_handler().verif_entries_per_category()
+}
+
 /// (cate_idset, base_id, invoke, group, length) of a character.
 pub fn char_info(dict: &Dictionary, c: char) -> (u32, u32, bool, bool, u16) {
     let ci = dict.char_prop().char_info(c);
